@@ -275,15 +275,29 @@ def classify(ex):
     return "other:%s:%s" % (name, str(ex)[:80])
 
 
+_no_cwd = [0]
+
+
 def impl_expand(spec, directory):
     from semantiva.execution.run_space import expand_run_space
     for b in spec["blocks"]:
         if b["source"] is not None:
             write_source(b["source"], directory)
     try:
-        runs, meta = expand_run_space(build_cfg(spec), cwd=directory)
+        if _no_cwd[0] % 3 == 0 and any(b["source"] is not None for b in spec["blocks"]):
+            # the documented default: relative source paths resolve against the CURRENT working directory of the call
+            here = os.getcwd()
+            os.chdir(directory)
+            try:
+                runs, meta = expand_run_space(build_cfg(spec))
+            finally:
+                os.chdir(here)
+        else:
+            runs, meta = expand_run_space(build_cfg(spec), cwd=directory)
     except Exception as ex:  # noqa
         return ("err", classify(ex)), None
+    finally:
+        _no_cwd[0] += 1
     return ("ok", [[(k, v) for k, v in r.items()] for r in runs]), meta
 
 
